@@ -359,6 +359,31 @@ def handle (j : Json) : Except String Json := do
       | _ => Json.str "unfinished")
     pure (Json.mkObj [("results", jArr res), ("cooked", Json.bool w.shared.cooked),
       ("installed", jArr ((w.shared.fns.map (·.1)).map Json.str))])
+  | "load" =>
+    -- threads of one process in ModuleLoader._load: the hook events of a real run, replayed on the step model.  Every event is the
+    -- completion of one model step of its thread (the "released" event of a thread that found the module registered stands for two:
+    -- the look at sys.modules and the release); after each event the thread's program counter must be the one the event names
+    let n ← getNat j "threads"
+    let evs ← match j.getObjVal? "events" with
+      | .ok (.arr a) => a.toList.mapM (fun m => match m with
+          | .arr #[t, .str l] => do pure ((← t.getNat?), l)
+          | _ => throw "event")
+      | _ => throw "events"
+    let q : Sys.Load.LQuirks := {}
+    let pcName : Sys.Load.PC → String
+      | .start => "start" | .locked => "locked" | .created => "created" | .executed => "executed"
+      | .registered => "registered" | .released => "released" | .done b => if b then "done:complete" else "done:incomplete"
+    let pcOf (s : Sys.Load.LState) (t : Nat) : String := match s.ths[t]? with | some th => pcName th.pc | none => "?"
+    let (s, bad) := evs.foldl (fun (acc : Sys.Load.LState × List String) (t, l) =>
+      let s := acc.1
+      let s1 := Sys.Load.step q s t
+      -- the hit path: locked -> (look) registered -> (release) released
+      let s2 := if l == "released" && pcOf s1 t == "registered" then Sys.Load.step q s1 t else s1
+      let s3 := if l == "returned" then s2 else s2
+      let ok := (if l == "returned" then (pcOf s3 t).startsWith "done" else pcOf s3 t == l)
+      (s3, if ok then acc.2 else acc.2 ++ [s!"after event {l} of thread {t} the model has it at {pcOf s3 t}"])) (Sys.Load.init n, [])
+    pure (Json.mkObj [("results", jArr ((Sys.Load.results s).map Json.bool)), ("mismatches", jArr (bad.map Json.str)),
+      ("pcs", jArr ((List.range n).map (fun t => Json.str (pcOf s t))))])
   | "cache" =>
     -- two writers of one entry under a schedule of events
     let entry ← getS j "entry"
